@@ -764,6 +764,12 @@ Hnextread(int32 access_id, uint16 tag, uint16 ref, int origin)
             HGOTO_DONE(SUCCEED);
         } /* end if */
         else {
+            /* the special element could not be opened (e.g. a coder that is not available): the
+               access record stays attached to the file as an ordinary element, so that
+               Hendaccess() or another Hnextread() can still be applied to it */
+            file_rec->attach++;
+            access_rec->special      = 0;
+            access_rec->special_info = NULL;
             HGOTO_DONE(FAIL);
         } /* end if */
     }
